@@ -1,6 +1,7 @@
 package gen
 
 import (
+	"math"
 	"pgregory.net/rapid"
 )
 
@@ -27,7 +28,7 @@ var validRunes = []rune{'a', 'Z', '0', ' ', '\n', '\t', 0, 0xe9, 0x6f22, 0x1f469
 // AnyItem draws an item of any kind; depth bounds cell nesting.
 func AnyItem(tokens []string, depth int) *rapid.Generator[Item] {
 	return rapid.Custom(func(t *rapid.T) Item {
-		kinds := []string{"nil", "str", "str", "str", "rune", "int", "i32n", "u8", "f64", "bool", "ints", "bytes", "map", "emap", "sx", "sn", "sns", "psx", "if", "if", "if", "ifp", "tm", "jm", "fmtr", "nstr", "stderr", "fielder", "anonfielder", "nilstr", "nilerr"}
+		kinds := []string{"nil", "str", "str", "str", "rune", "int", "i32n", "u8", "f64", "f32", "i64", "u64", "i8", "u16", "c64", "bool", "ints", "bytes", "map", "emap", "sx", "sn", "sns", "psx", "if", "if", "if", "ifp", "tm", "jm", "fmtr", "nstr", "stderr", "fielder", "anonfielder", "nilstr", "nilerr"}
 		if depth > 0 {
 			kinds = append(kinds, "cell", "cell", "pcell")
 		}
@@ -45,9 +46,13 @@ func AnyItem(tokens []string, depth int) *rapid.Generator[Item] {
 			it.N = int64(rapid.IntRange(0, 255).Draw(t, "n"))
 		case "bool":
 			it.N = int64(rapid.IntRange(0, 1).Draw(t, "n"))
-		case "f64":
-			it.FS = rapid.SampledFrom([]string{"", "", "", "nan", "+inf", "-inf", "1e+100", "-0.5"}).Draw(t, "fs")
+		case "f64", "f32", "c64":
+			it.FS = rapid.SampledFrom([]string{"", "", "", "nan", "+inf", "-inf", "1e+100", "-0.5", "0.1", "3.14", "1e21", "1e20", "-2.7e-7", "1e-6", "1e-7", "5e-324", "1.7976931348623157e308", "16777217", "123456.7"}).Draw(t, "fs")
 			it.N = int64(rapid.IntRange(-100, 100).Draw(t, "n"))
+		case "i64", "u64":
+			it.N = rapid.SampledFrom([]int64{0, 1, -1, 42, 255, 1 << 31, 1<<53 + 1, math.MaxInt64, math.MinInt64, -1 << 40}).Draw(t, "n64")
+		case "i8", "u16":
+			it.N = int64(rapid.IntRange(-128, 127).Draw(t, "n"))
 		case "map", "sx", "sn", "psx":
 			it.S = str("s")
 			it.N = int64(rapid.IntRange(-9, 9).Draw(t, "n"))
@@ -76,10 +81,20 @@ func IfaceItem(tokens []string, mask int) *rapid.Generator[Item] {
 		it.S = Str(StringOf(tokens, 0, 3).Draw(t, "s"))
 		it.G = Str(StringOf(tokens, 0, 3).Draw(t, "g"))
 		it.E = Str(StringOf(tokens, 0, 3).Draw(t, "e"))
-		it.H = rapid.IntRange(0, 4).Draw(t, "h")
-		it.W = rapid.IntRange(0, 9).Draw(t, "w")
+		it.H = DeclSize(t, "h", 4)
+		it.W = DeclSize(t, "w", 9)
 		return it
 	})
+}
+
+// DeclSize draws a declared width or height: 0..max, and now and then a negative one (nothing stops an item from
+// declaring it; the library reads it as "none").
+func DeclSize(t *rapid.T, label string, max int) int {
+	n := rapid.IntRange(0, max).Draw(t, label)
+	if Rarely(t, label+"-neg", 12) {
+		return -1 - n%3
+	}
+	return n
 }
 
 // ScriptOpts tunes the build-history generator.
@@ -126,6 +141,9 @@ func ScriptGen(o ScriptOpts) *rapid.Generator[Script] {
 		kinds := []string{"rowitems", "rowitems", "rowitems", "sep", "appendnew", "newrow", "newrowcap", "newrowsized", "rowadd", "rowadd", "addrow", "addrow", "zerorow"}
 		if o.SimpleOnly {
 			kinds = []string{"rowitems", "rowitems", "rowitems", "sep"}
+		}
+		if !o.SimpleOnly && !o.NoLateAdd {
+			kinds = append(kinds, "burst")
 		}
 		if !o.NoHdr && !o.ForceHdr {
 			kinds = append(kinds, "hdr")
@@ -184,6 +202,25 @@ func ScriptGen(o ScriptOpts) *rapid.Generator[Script] {
 				rows = append(rows, rk{attached: true, sep: true})
 			case "appendnew":
 				rows = append(rows, rk{attached: true})
+			case "burst":
+				// several rows made one after the other (in the table, or pending) and then grown in turns, each
+				// beyond the width the table had when the row was made
+				nr := rapid.IntRange(2, 3).Draw(t, "burst-rows")
+				mk := rapid.SampledFrom([]string{"appendnew", "appendnew", "newrowsized", "newrow"}).Draw(t, "burst-make")
+				first := len(rows)
+				for b := 0; b < nr; b++ {
+					rows = append(rows, rk{attached: mk == "appendnew"})
+					s.Ops = append(s.Ops, Op{K: mk})
+				}
+				adds := rapid.IntRange(2, 6).Draw(t, "burst-adds")
+				for a := 0; a < adds; a++ {
+					ad := Op{K: "rowadd", Ref: first + rapid.IntRange(0, nr-1).Draw(t, "burst-ref")}
+					for e := rapid.IntRange(1, 4).Draw(t, "burst-items"); e > 0; e-- {
+						ad.Items = append(ad.Items, o.Item.Draw(t, "item"))
+					}
+					s.Ops = append(s.Ops, ad)
+				}
+				continue
 			case "zerorow":
 				rows = append(rows, rk{attached: true, sep: true}) // like a separator it refuses Add
 			case "newrow", "newrowsized":
@@ -219,9 +256,9 @@ func ScriptGen(o ScriptOpts) *rapid.Generator[Script] {
 				op.Items = []Item{{K: "str", S: to.S, G: to.G, E: to.E, N: to.N}}
 				switch rapid.IntRange(0, 3).Draw(t, "resize") {
 				case 0: // the declared sizes change as well
-					op.Items[0].M, op.Items[0].H, op.Items[0].W = 1, rapid.IntRange(0, 4).Draw(t, "newh"), rapid.IntRange(0, 9).Draw(t, "neww")
+					op.Items[0].M, op.Items[0].H, op.Items[0].W = 1, DeclSize(t, "newh", 4), DeclSize(t, "neww", 9)
 				case 1: // ONLY the declared sizes change: the text stays what it is ("keep")
-					op.Items[0] = Item{K: "keep", M: 1, H: rapid.IntRange(0, 4).Draw(t, "newh"), W: rapid.IntRange(0, 9).Draw(t, "neww")}
+					op.Items[0] = Item{K: "keep", M: 1, H: DeclSize(t, "newh", 4), W: DeclSize(t, "neww", 9)}
 				}
 			case "readd":
 				op.Ref = rapid.IntRange(0, 5).Draw(t, "ref")
